@@ -33,15 +33,22 @@ def rand_sym(rs, n, scale=1.0):
     return scale * (a + a.T) / 2.0
 
 
-def gen_hamiltonian(rs, norb, nchol, strength=0.5, spin_dep=False, h1_scale=1.0):
+def gen_hamiltonian(rs, norb, nchol, strength=0.5, spin_dep=False, h1_scale=1.0, antisym=0.0):
     """Random ab-initio-like Hamiltonian: symmetric h1 (per spin), symmetric Cholesky
     matrices (flattened as the library stores them)."""
     _, jnp = _jax()
     h1a = rand_sym(rs, norb, h1_scale) + np.diag(np.arange(norb) * 0.7)
     h1b = h1a + (rand_sym(rs, norb, 0.3 * h1_scale) if spin_dep else 0.0)
     chol = np.array([rand_sym(rs, norb, strength) for _ in range(nchol)])
+    h0 = float(rs.uniform(-1.0, 1.0))
+    if antisym:
+        # a one-body input that is not exactly symmetric: the library symmetrises it (drawn last, so
+        # that the symmetric part of the Hamiltonian does not depend on this option)
+        k = rs.normal(size=(norb, norb))
+        h1a = h1a + antisym * (k - k.T)
+        h1b = h1b + antisym * (k - k.T)
     return {
-        "h0": jnp.array(float(rs.uniform(-1.0, 1.0))),
+        "h0": jnp.array(h0),
         "h1": jnp.array(np.array([h1a, h1b])),
         "chol": jnp.array(chol.reshape(nchol, norb * norb)),
         "ene0": 0.0,
@@ -324,7 +331,7 @@ def build_system(spec, harness=True):
     norb, nelec = spec["norb"], tuple(spec["nelec"])
     s.spec = spec
     s.ham = hamiltonian.hamiltonian(norb)
-    ham_data = gen_hamiltonian(rs, norb, spec["nchol"], spec.get("strength", 0.5), spec.get("spin_dep", False))
+    ham_data = gen_hamiltonian(rs, norb, spec["nchol"], spec.get("strength", 0.5), spec.get("spin_dep", False), antisym=spec.get("h1_antisym", 0.0))
     s.trial, s.wave_data = make_trial(spec["trial"], norb, nelec, ham_data, rs, spec.get("mix", 0.0), spec.get("n_batch", 1))
     base = "propagator_restricted" if spec["wt"] == "restricted" else "propagator_unrestricted"
     kw = dict(dt=spec["dt"], n_walkers=spec["n_walkers"], n_exp_terms=spec.get("n_exp_terms", 6), n_batch=spec.get("n_batch", 1))
